@@ -164,6 +164,16 @@ fn templates() -> Vec<Template> {
         t(CtxRule::ArabicIndic, vec![x, s(0x669)], 1),
         t(CtxRule::ExtArabicIndic, vec![s(0x6F0), x], 0),
         t(CtxRule::ExtArabicIndic, vec![x, s(0x6F9)], 1),
+        // the same unknown on BOTH sides of the rule's code point (a rule that compares or
+        // case-folds its two neighbours sees something no one-sided template shows)
+        t(CtxRule::Zwnj, vec![x, s(ZWNJ), x], 1),
+        t(CtxRule::Zwj, vec![x, s(ZWJ), x], 1),
+        t(CtxRule::MiddleDot, vec![x, s(0xB7), x], 1),
+        t(CtxRule::Keraia, vec![x, s(0x375), x], 1),
+        t(CtxRule::HebrewPunct, vec![x, s(0x5F3), x], 1),
+        t(CtxRule::KatakanaDot, vec![x, s(0x30FB), x], 1),
+        t(CtxRule::ArabicIndic, vec![x, s(0x660), x], 1),
+        t(CtxRule::ExtArabicIndic, vec![x, s(0x6F0), x], 1),
     ]
 }
 
@@ -276,6 +286,34 @@ pub fn run(env: &Env, run: &Run) -> (Stats, Coverage) {
             check_rule(env, r, &l, &s, 0, st);
         }
     }));
+    // (a') every ordered pair (a, b) of ASCII / Latin-1 characters around each rule's code point
+    {
+        let owners: [(CtxRule, u32); 9] = [
+            (CtxRule::Zwnj, ZWNJ),
+            (CtxRule::Zwj, ZWJ),
+            (CtxRule::MiddleDot, 0xB7),
+            (CtxRule::Keraia, 0x375),
+            (CtxRule::HebrewPunct, 0x5F3),
+            (CtxRule::HebrewPunct, 0x5F4),
+            (CtxRule::KatakanaDot, 0x30FB),
+            (CtxRule::ArabicIndic, 0x660),
+            (CtxRule::ExtArabicIndic, 0x6F0),
+        ];
+        let mut labels: Vec<String> = Vec::new();
+        for (_, cp) in owners {
+            for a in 0u32..256 {
+                for b in 0u32..256 {
+                    labels.push(from_cps(&[a, cp, b]));
+                }
+            }
+        }
+        st.merge(run_family(&labels, |s, st| {
+            let l: Vec<u32> = s.chars().map(|c| c as u32).collect();
+            if let Some(r) = CtxRule::owner_of(l[1]) {
+                check_rule(env, r, &l, s, 1, st);
+            }
+        }));
+    }
     // (b1) joining-type tree: ZWNJ/ZWJ rules at every position; all rules up to length 4
     let a1: Vec<char> = [D, L, R, T, 0x61, VIRAMA, ZWNJ, ZWJ].iter().map(|c| char::from_u32(*c).unwrap()).collect();
     let n1 = run.tier.pick(7, 9);
